@@ -243,7 +243,8 @@ PanicCbA ==
         /\ Do(DropAll(h), [op |-> "failed_map_root"])
      \/ \* Arena::new / try_new whose callback allocates n objects and then fails: another,
         \* short-lived arena; this one is not affected
-        \E n \in 0..2, mode \in {"panic", "err"} : Do(h, [op |-> "failed_new", n |-> n, mode |-> mode])
+        \* (mode "rootless": arena::rootless_mutate, a context without a root that lives for one callback)
+        \E n \in 0..2, mode \in {"panic", "err", "rootless"} : Do(h, [op |-> "failed_new", n |-> n, mode |-> mode])
 
 \* finish_marking().unwrap().start_sweeping()
 StartSweepingA ==
